@@ -108,6 +108,8 @@ def run(tier, seed, replay=None):
         texts.append(('core', t))
     for _ in range(nrand):
         texts.append(('macro', macro_prog(rng)))
+    # binder shapes that are always run: shadowing let initialisers, define after use in a function body
+    texts += [('shadowing', cc.render(p)) for p in cc.shadowing_programs()]
     cases = []
     for kind, t in texts:
         for flags in ('111', '110'):
